@@ -72,6 +72,9 @@ for pid in sorted(bypid):
 out.append('\nMutants (every one keeps the pinned suite green and is flagged by its property\'s quick check with a concrete '
            'failing input) and behaviour-preserving rewrites (`*rewrite*`, `*harmless*`, `REWRITE_*`: must stay green). '
            'Run one with `tools/mutant_check.sh selftest/<name>.diff <ID>`.\n')
+out.append('\n### E.5 Per-property claim and what is assumed (verbatim from MANIFEST.json)\n')
+for pid in sorted(claims):
+    out.append('**%s.** %s\n\n*Assumed / trusted:* %s\n' % (pid, claims[pid]['text'], claims[pid]['note']))
 text = '\n'.join(out)
 p = os.path.join(here, 'DESIGN.md')
 s = open(p).read()
